@@ -108,7 +108,21 @@ E2_ADD = {
     "zz_verif_e2_cluster_test.go": "sim/e2/e2_cluster_test.go",
 }
 
+C07_ADD = {
+    "internal/ircserver/zz_verif_probe.go": "sim/e1/probe_ircserver.go",
+    "zz_verif_e1_node_test.go": "sim/e1/e1_node_test.go",
+    "zz_verif_c07_test.go": "sim/c07/c07_test.go",
+}
+
 ENGINES = {
+    "c07": {
+        "pkg": ".",
+        "virtual": ["core"],
+        "add": C07_ADD,
+        "gomaxprocs": 2,
+        "chunk": {"quick": 8, "thorough": 50},
+        "kind": "C07: every node incarnation is a child process of the worker (real FSM, stores, glog.Fatalf exit), parent inspects the durable log and compares with a twin",
+    },
     "e2": {
         "pkg": ".",
         "virtual": ["core"],
@@ -228,6 +242,23 @@ CHECKS = {
 }
 
 CHECKS.update({
+    "C07": {
+        "engine": "c07",
+        "runs": {"quick": 96, "thorough": 8000},
+        "level": "exploration",
+        "rule": ("scenario = history (config, 2-4 users, optional services link and operator, traffic, raft-internal entries, clock advances) with one or two poisoned entries (test-only PANIC command) at a seeded position from an ordinary / operator / services / unregistered session; "
+                 "optional snapshot before the poisoned entry; after the crash: restart+replay from the durable log, optionally snapshot (folding the marked entry, or keeping it in the log copy) and restart from that snapshot; "
+                 "non-trivial = the process died at least once through the message-of-death path and >=1 twin comparison; distinct = digest of incarnation outcomes + log shape"),
+        "probes": ["deaths", "marked_entries_verified", "twin_comparisons", "snapshots_after_marking", "restores_after_marking", "child_processes"],
+        "components": {"real": ["statemachine.go (applyProto recover path, glog.Fatalf, Apply/Snapshot/Persist/Restore)", "internal/raftstore + goleveldb", "internal/ircserver (PANIC command enabled by environment)", "hashicorp/raft FileSnapshotStore", "process exit (real child processes)"],
+                       "stubbed": ["consensus (the parent hands the child its committed log)", "main() wiring"]},
+        "claim": ("Each incarnation of the node is a real process: the first dies with status 255 exactly at the poisoned entry; the parent then checks that exactly that entry is stored as message of death and every other entry is unchanged; "
+                  "the restarted process replays to the end, its reflected state equals a replica that only ever saw the entry already marked (marker advanced, no other effect, no output), also after a snapshot that folds or retains the marked entry and a restart from it."),
+        "note": "exact replay (single-threaded driver, processes run one after another). Position/role of the poisoned entry and snapshot placement are sampled.",
+        "technique": "deterministic simulation: crash injection via the code's own failpoint (PANIC command) in child processes, restart with only durable state, twin-replica oracle",
+        "assumptions": ["the test-only PANIC command is representative of a handler panic"],
+        "worker_timeout": {"quick": 600, "thorough": 3600},
+    },
     "C05": {
         "engine": "e2",
         "runs": {"quick": 2000, "thorough": 200000},
